@@ -50,6 +50,8 @@ def spec_for(directive):
         "D": ("yday", lambda v: str(v)),
         "DD": ("yday", lambda v: str(v).zfill(2)),
         "DDD": ("yday", lambda v: str(v).zfill(3)),
+        # day of week in month: the 1st..7th are the first occurrence of their weekday, the 8th..14th the second, ...
+        "F": ("day", lambda d: str((d - 1) // 7 + 1)),
     }
     for n, d in (("S", 1), ("SS", 2), ("SSS", 3), ("SSSS", 4), ("SSSSS", 5)):
         S[n] = ("microsecond", (lambda k: (lambda v: str(v).zfill(6)[:k]))(d))
@@ -61,6 +63,7 @@ DOMAINS = {
     "minute": list(range(60)),
     "second": list(range(60)),
     "yday": list(range(1, 367)),
+    "day": list(range(1, 32)),
     # microseconds: every digit-length class and the boundaries of each leading-digit group
     "microsecond": sorted(set([0, 1, 9, 10, 99, 100, 999, 1000, 9999, 10000, 99999, 100000, 123456, 500000, 909090, 999999] + [d * 10**k for d in range(1, 10) for k in range(6)]
                               + [d * 10**k + 1 for d in range(1, 10) for k in range(1, 6)] + list(range(0, 1000000, 4999)))),
@@ -90,6 +93,46 @@ def helper_env(repo):
                 return call
             env[n.name] = mk(n)
     return env
+
+
+def check_date_format_entry(repo, rep):
+    """Cell._date_format: every text it returns comes out of the directive decoder applied to the cell's own datetime
+    (the one exception being the empty string of the unsupported-custom-format warning)."""
+    from ..symexec import Straight
+    f = repo.func("cell.py", "Cell._date_format")
+    sl = Straight(f)
+    bad = []
+    n = 0
+    for r in [x for x in body_walk(f) if isinstance(x, ast.Return) and x.value is not None]:
+        n += 1
+        v = sl.at(r, r.value)
+        alts = []
+
+        def leaves(e):
+            if isinstance(e, ast.IfExp):
+                leaves(e.body)
+                leaves(e.orelse)
+            else:
+                alts.append(e)
+        leaves(v)
+        for a in alts:
+            if isinstance(a, ast.Call) and call_name(a) == "_decode_date_format" and len(a.args) == 2 and U(a.args[1]) == "self._datetime":
+                continue
+            if isinstance(a, ast.Constant) and a.value == "":
+                # only after the unsupported-format warning
+                prev = [p for p in ast.walk(f) if isinstance(p, ast.Call) and call_name(p) == "warn" and p.lineno < r.lineno and r.lineno - p.lineno <= 8]
+                if prev:
+                    continue
+            if isinstance(a, ast.Name) and a.id == "formatted_value":
+                # assigned in a branch the substitution could not follow: every assignment must be a decoder call
+                asg = [x for x in body_walk(f) if isinstance(x, ast.Assign) and U(x.targets[0]) == "formatted_value"]
+                if asg and all(isinstance(x.value, ast.Call) and call_name(x.value) == "_decode_date_format" and U(x.value.args[1]) == "self._datetime" for x in asg):
+                    continue
+            bad.append(f"line {r.lineno}: returns `{U(a)[:60]}`")
+    if n == 0:
+        raise AnalysisError("Cell._date_format: no return found")
+    rep.ob("C14.R1", f, f"Cell._date_format: all {n} returns render through _decode_date_format(<format>, self._datetime)", not bad,
+           "" if not bad else f"{bad}: the cell's date format is ignored on that path and another text is displayed", key="C14.R1@date_format:entry")
 
 
 def run(repo, rep, tier):
@@ -163,6 +206,7 @@ def run(repo, rep, tier):
             w = ", ".join(f"{field}={b[0]} -> {b[1]!r} (documented {b[2]!r})" for b in bad[:4])
             detail = f"over all {len(DOMAINS[field])} values of {field}: {len(bad)} wrong, e.g. {w}"
         rep.ob("C14.R3", v, f"directive {k} = `{U(v.body)[:60]}` over every {field}", ok, detail, key=f"C14.R3@{k}")
+    rep.sub(check_date_format_entry, repo, rep)
     check_duration(repo, rep)
     check_scanner(repo, rep)
     rep.extra["field_domains"] = {k: len(v) for k, v in DOMAINS.items()}
@@ -242,6 +286,9 @@ def check_scanner(repo, rep):
 
 
 VARIANTS = [
+    M("F-day-floordiv-7", "constants.py", "n_days = int((value - value.replace(day=1)).days / 7) + 1", "n_days = value.day // 7 + 1", "C14.R3"),
+    T("F-day-minus-one", "constants.py", "n_days = int((value - value.replace(day=1)).days / 7) + 1", "n_days = (value.day - 1) // 7 + 1"),
+    M("date-format-bypass", "cell.py", "            format_map = self._model.custom_format_map()\n            custom_format = format_map[format_uuid].default_format", "            format_map = self._model.custom_format_map()\n            if format_uuid not in format_map:\n                return str(self.value)\n            custom_format = format_map[format_uuid].default_format", "C14.R1"),
     M("revert-fix-k-replace", "constants.py", '("k", lambda x: str(x.hour or 24)),', '("k", lambda x: str(x.hour).replace("0", "24")),', "C14.R3"),
     M("KK-mod-24", "constants.py", '("KK", lambda x: str(x.hour % 12).zfill(2)),', '("KK", lambda x: str(x.hour % 24).zfill(2)),', "C14.R3"),
     M("mm-zfill-1", "constants.py", '("mm", lambda x: str(x.minute).zfill(2)),', '("mm", lambda x: str(x.minute).zfill(1)),', "C14.R3"),
